@@ -55,6 +55,10 @@ def negatives(rng, streams):
         if kind == "http" and p is not None:
             for f in ("header_no_colon", "nondigit_minor", "no_final_empty_line", "misspelt_http"):
                 out.append(("http_neg", http.fault(rng, p, f), None, False, None))
+            # a foreign preface followed by a valid request: unanswered in one piece, so unanswered under every cut
+            # (in particular the cut that falls exactly at the start of the request)
+            pre = rng.choice([b"PROXY TCP4 192.0.2.1 192.0.2.2 1 80\r\n", bytes(rng.randrange(1, 256) | 0x80 for _ in range(rng.randrange(9, 40))), b"\r\n\r\n   \r\n"])
+            out.append(("http_neg", pre + s, None, False, None))
     return out
 
 
